@@ -6,3 +6,9 @@ pub mod util;
 mod c19;
 #[cfg(kani)]
 mod c01;
+#[cfg(kani)]
+mod c07;
+#[cfg(kani)]
+mod c08;
+#[cfg(kani)]
+mod c04;
